@@ -44,9 +44,12 @@ def run(model, col, tier):
         col.check(not D.overrides_generic(v), "R12.1", f"{f}::{v.name} uses the generic dispatch", "v_Generic is not overridden", None, f, v.node)
     # ---- R12.1 -------------------------------------------------------------
     val_scope, val_fresh = {}, {}
+    from ..sem import expand_helpers, iterations
+
     for name, m in vv.methods.items():
         if not name.startswith("v_") or len(m.args.args) < 3:
             continue
+        m = expand_helpers(model, vv, m)
         ctxn = m.args.args[2].arg
         mk = [n for n in ast.walk(m) if isinstance(n, ast.Assign) and isinstance(n.value, ast.Call) and last_attr(n.value) == "Context"]
         if mk:
@@ -59,6 +62,7 @@ def run(model, col, tier):
     for name, m in ctv.methods.items():
         if not name.startswith("v_"):
             continue
+        m = expand_helpers(model, ctv, m)
         pushes = [c for c in ast.walk(m) if isinstance(c, ast.Call) and last_attr(c) == "append" and c.args and isinstance(c.args[0], (ast.Call, ast.Name))]
         scope_push = []
         for c in pushes:
@@ -203,7 +207,7 @@ def run(model, col, tier):
         for st in oef.body:
             if st is cm[0]:
                 break
-            if isinstance(st, ast.Assign) and isinstance(st.targets[0], ast.Attribute) and isinstance(st.value, (ast.Dict, ast.Call)):
+            if isinstance(st, ast.Assign) and isinstance(st.targets[0], ast.Attribute) and isinstance(st.value, (ast.Dict, ast.Call, ast.DictComp)):
                 fresh[st.targets[0].attr] = st.value
         locals_field = members[-1] if members else None
         col.check(len(members) == 3 and members[1] in fresh and members[2] in fresh, "R12.4", f"{LOWER}::Context.OnEnterFunction fresh maps",
@@ -224,8 +228,8 @@ def run(model, col, tier):
                   "resolves a name through the one per-function map", f"returns {rets}", LOWER, look)
         for a in ast.walk(oef):
             pass
-        argloop = [n for n in ast.walk(oef) if isinstance(n, ast.For)]
-        col.check(any("Arguments" in unparse(l.iter) and "FUNCTION_ARGUMENT" in unparse(l) for l in argloop), "R12.4", f"{LOWER}::Context.OnEnterFunction registers parameters",
+        argloop = [(it, body) for it, tgt, body, kind in iterations(oef)]
+        col.check(any("Arguments" in unparse(it) and any("FUNCTION_ARGUMENT" in unparse(b) for b in body) for it, body in argloop), "R12.4", f"{LOWER}::Context.OnEnterFunction registers parameters",
                   "every parameter is registered as FUNCTION_ARGUMENT", None, LOWER, oef)
     oem = lctx.own_method("OnEnterModule")
     col.check("GLOBAL" in unparse(oem) and "GetDeclarations" in unparse(oem), "R12.4", f"{LOWER}::Context.OnEnterModule registers globals",
